@@ -405,7 +405,7 @@ def main(argv):
              "--out", str(out)], env=env, cwd=str(VERIF), stdout=log,
             stderr=subprocess.STDOUT)
         procs.append((p, out, log))
-    timeout = meta["timeout"].get(tier) or {"quick": 900, "thorough": 6 * 3600}[tier]
+    timeout = meta["timeout"].get(tier) or {"quick": 2400, "thorough": 6 * 3600}[tier]
     results, errors = [], []
     for p, out, log in procs:
         left = max(1, timeout - (time.time() - t0))
